@@ -194,6 +194,52 @@ def gen_ops(text: str, rng: random.Random, n: int) -> list[tuple]:
     return ops
 
 
+SPECIAL = [
+    # dotted bindings under different roots whose leaves are equal (same last segment, value, trivia)
+    ("equal-leaves", "{\n  services.nginx.enable = true;\n  services.openssh.enable = true;\n  programs.zsh.enable = true;\n  x = 1;\n}",
+     [("rm", "services.nginx.enable"), ("rm", "services.openssh.enable"), ("rm", "programs.zsh.enable"),
+      ("set", "services.nginx.enable", "false"), ("set", "programs.zsh.enable", "false"), ("set", "programs.fish.enable", "true"),
+      ("rm", "services.nginx"), ("rm", "x"), ("set", "services.nginx.port", "80")]),
+    ("equal-bindings", "{\n  a = true;\n  b = true;\n  c = {\n    a = true;\n    b = true;\n  };\n}",
+     [("rm", "a"), ("rm", "b"), ("rm", "c.a"), ("rm", "c.b"), ("set", "c.a", "false"), ("set", "b", "false")]),
+    # an explicit set binding and a dotted binding with the same root (valid Nix: the definitions merge)
+    ("explicit-then-attrpath", "{\n  a = {\n    x = 1;\n  };\n  a.b = 2;\n}",
+     [("set", "a", "1"), ("rm", "a"), ("set", "a.x", "5"), ("set", "a.b", "7"), ("rm", "a.b"), ("rm", "a.x"), ("set", "a.z", "3")]),
+    ("attrpath-then-explicit", "{\n  a.b = 2;\n  a = {\n    x = 1;\n  };\n}",
+     [("set", "a", "1"), ("rm", "a"), ("set", "a.x", "5"), ("set", "a.b", "7"), ("rm", "a.b"), ("rm", "a.x"), ("set", "a.z", "3")]),
+    # a quoted name containing a dot next to the nested path it must not be confused with
+    ("quoted-dot-vs-nested", "{\n  a = {\n    b = {\n      d = 1;\n    };\n  };\n}",
+     [("set", '"a.b".c', "2"), ("rm", '"a.b".d'), ("set", '"a.b"', "2"), ("rm", '"a.b"'), ("set", 'a."b.d"', "2"),
+      ("rm", 'a."b.d"'), ("set", 'a."b".d', "3"), ("rm", '"a".b.d')]),
+    ("quoted-dot-vs-attrpath", "{\n  a.b.d = 1;\n  x = 2;\n}",
+     [("set", '"a.b".c', "2"), ("rm", '"a.b".d'), ("set", '"a.b"', "2"), ("rm", '"a.b"'), ("rm", 'a."b.d"'), ("set", 'a."b".d', "3")]),
+    ("quoted-dot-existing", "{\n  \"a.b\" = {\n    d = 1;\n  };\n  a.b.d = 2;\n}",
+     [("set", '"a.b".d', "7"), ("set", "a.b.d", "7"), ("rm", '"a.b".d'), ("rm", "a.b.d"), ("set", '"a.b".c', "2")]),
+]
+SPECIAL_PATHS_MALFORMED = ["a.", "a.b.", "x.", "@x.", '"q-r".', "a..", ".a", "a. b", "a\n", "\ta", " a", "a ", '"a"b', 'a"b"', "@", "@.a"]
+
+
+def enumerate_special():
+    """shapes × their own operations (always run in full): what only a specific document shape or path
+    spelling exposes"""
+    for name, body, ops in SPECIAL:
+        for wname, wtpl in (("bare", "{S}"), ("lambda-formals", "{{ pkgs }}:\n{S}"), ("call", "f {S}")):
+            text = wtpl.replace("{S}", body).replace("{{", "{").replace("}}", "}") + "\n"
+            for op in ops:
+                yield text, [op], {"class": "editable", "wrapper": wname, "special": name}
+            # every pair of operations as a history
+            for i, op in enumerate(ops[:5]):
+                for op2 in ops[:5]:
+                    if op2 is not op and wname == "bare":
+                        yield text, [op, op2], {"class": "editable", "wrapper": wname, "special": name}
+    base = "{\n  a = 1;\n  x = {\n    k = 1;\n  };\n  \"q-r\" = 2;\n}\n"
+    for lay in ("", "let\n  x = 1;\nin\n"):
+        for p in SPECIAL_PATHS_MALFORMED:
+            yield lay + base, [("set", p, "7")], {"class": "editable", "wrapper": "bare", "special": "malformed-path"}
+            yield lay + base, [("rm", p)], {"class": "editable", "wrapper": "bare", "special": "malformed-path"}
+            yield lay + base, [("set", p, "7"), ("set", "a", "2")], {"class": "editable", "wrapper": "bare", "special": "malformed-path"}
+
+
 def enumerate_single_ops():
     """Deterministic cross product: wrapper × body template × single operation (quick tier core)."""
     bodies = [
